@@ -1,5 +1,5 @@
 (* C10, call-site layer for the request line.  What parse_header does with the
-   first line (Model/Parser.v): first_line = line.rstrip(); refuse if it
+   first line (Model/Parser.v): first_line = line.rstrip(b" \t\x0b\x0c\r"); refuse if it
    contains CR or LF; crack_first_line = fullmatch + "method is upper-case".
    Proved here: for a line WITHOUT trailing whitespace the verdict is exactly
    the request-line grammar.  Lines with surrounding whitespace are the open
@@ -11,7 +11,7 @@ Import ListNotations.
 Local Open Scope N_scope.
 
 Definition request_line_accepts (line : bytes) : bool :=
-  let fl := rstrip_by is_bytes_ws line in
+  let fl := rstrip_by is_reqline_ws line in
   negb (has_cr_or_lf fl) &&
   match crack_first_line fl with
   | None => false
@@ -189,7 +189,7 @@ Proof.
 Qed.
 
 Theorem request_line_callsite_partial : forall line, bytes_ok line ->
-  rstrip_by is_bytes_ws line = line ->          (* no trailing whitespace: outside kf_c10_reqline_ws *)
+  rstrip_by is_reqline_ws line = line ->          (* no trailing whitespace: outside kf_c10_reqline_ws *)
   (request_line_accepts line = true <-> Lang spec_request_line line).
 Proof.
   intros line Hb Hr. unfold request_line_accepts. rewrite Hr.
